@@ -61,6 +61,12 @@ fn hostile_docs() -> Vec<Value> {
         v.push(Value::Array(xs.clone()));
         v.push(Value::Array(xs.iter().enumerate().map(|(i, x)| json!({"k": x, "id": i})).collect()));
     }
+    // calls that fail half-way through their input, next to inputs on which the same call succeeds
+    // (whatever a failed call leaves behind meets the next call of the same worker)
+    v.push(json!([{"k": 1, "a": 1}, {"k": "x", "a": "x"}, {"k": 2, "a": 2}]));
+    v.push(json!([{"k": 2, "a": 2}, {"k": 1, "a": 1}]));
+    v.push(json!([1, 2, "x", 3]));
+    v.push(json!([["a", "b"], ["c", 1], ["d"]]));
     // integers from both ends of the 64-bit ranges side by side (no common machine type)
     v.push(json!([[-9223372036854775808i64], 18446744073709551615u64]));
     v.push(json!([-9223372036854775808i64, 18446744073709551615u64, -9007199254740993i64, 9223372036854775808u64, 9007199254740993u64, 0]));
@@ -124,7 +130,11 @@ pub fn gen_case(rng: &mut Rng) -> (String, &'static str) {
     } else if fam < 96 {
         (refimpl::sentence::long_token_case(rng), "long-token")
     } else if fam < 97 {
-        (refimpl::sentence::lookalike_case(rng), "unicode-lookalike")
+        if rng.chance(1, 2) {
+            (refimpl::sentence::lookalike_case(rng), "unicode-lookalike")
+        } else {
+            (refimpl::sentence::surrogate_case(rng), "surrogate-escapes")
+        }
     } else {
         // a moderately deep member of a depth family (shallow enough to be in scope)
         let f = DEPTH_FAMILIES[rng.below(DEPTH_FAMILIES.len())];
